@@ -202,9 +202,9 @@ class RawAccessPoint(TransmissionControlObject):
         self.state.ESTABLISHED = True
 
     def __str__(self):
-        return "RAW {:2} ->  ?".format(self.addr
-                                       if self.addr is not None
-                                       else "None")
+        # read once, the socket may be unbound by the link loop meanwhile
+        addr = self.addr
+        return "RAW {:2} ->  ?".format(addr if addr is not None else "None")
 
     def setsockopt(self, option, value):
         if self.state.SHUTDOWN:
@@ -271,9 +271,11 @@ class LogicalDataLink(TransmissionControlObject):
         self.state.ESTABLISHED = True
 
     def __str__(self):
+        # read once, the socket may be unbound by the link loop meanwhile
+        addr, peer = self.addr, self.peer
         return "LDL {addr:2} -> {peer:2}".format(
-                addr=self.addr if self.addr is not None else "None",
-                peer=self.peer if self.peer is not None else "None"
+                addr=addr if addr is not None else "None",
+                peer=peer if peer is not None else "None"
         )
 
     def setsockopt(self, option, value):
@@ -389,10 +391,12 @@ class DataLinkConnection(TransmissionControlObject):
         s = "DLC {addr:2} <-> {peer:2} {dlc.state} "
         s += "RW(R)={dlc.send_win} V(S)={dlc.send_cnt} V(SA)={dlc.send_ack} "
         s += "RW(L)={dlc.recv_win} V(R)={dlc.recv_cnt} V(RA)={dlc.recv_ack}"
+        # read once, the socket may be unbound by the link loop meanwhile
+        addr, peer = self.addr, self.peer
         return s.format(
                 dlc=self,
-                addr=self.addr if self.addr is not None else "None",
-                peer=self.peer if self.peer is not None else "None"
+                addr=addr if addr is not None else "None",
+                peer=peer if peer is not None else "None"
         )
 
     def log(self, string):
